@@ -178,8 +178,10 @@ func verifHarness_C09_converge() {
 		in.sm.mutex.RUnlock()
 	}
 	verifAssert(len(created) == nClaims, "every-claim-registered-locally")
-	// deliver pending announcements in symbolic order; an announcement may be duplicated once
-	for d := 0; d < maxDeliveries; d++ {
+	// deliver pending announcements in symbolic order; an announcement may be duplicated once; up to
+	// `merges` full-state syncs (push/pull) between any ordered pair may happen anywhere in between
+	mergesLeft := verifParam("merges", 0)
+	for d := 0; d < maxDeliveries+verifParam("merges", 0); d++ {
 		var pending []*c9Packet
 		for _, p := range w.net {
 			if p.copies == 0 {
@@ -189,7 +191,27 @@ func verifHarness_C09_converge() {
 		if len(pending) == 0 {
 			break
 		}
-		p := pending[verifChoose("deliver", len(pending))]
+		nPairs := 0
+		if mergesLeft > 0 {
+			nPairs = nInst * (nInst - 1)
+		}
+		c := verifChoose("deliver", len(pending)+nPairs)
+		if c >= len(pending) {
+			// state sync a -> b
+			k := c - len(pending)
+			a := w.insts[k/(nInst-1)]
+			bi := k % (nInst - 1)
+			if bi >= k/(nInst-1) {
+				bi++
+			}
+			verifAction("state-sync")
+			w.merge(a, w.insts[bi])
+			mergesLeft--
+			verifReach("state-sync-between-announcements")
+			verifQuiesce()
+			continue
+		}
+		p := pending[c]
 		verifAction("deliver")
 		w.deliver(p)
 		if verifParam("duplicates", 1) > 0 && verifChoose("duplicate", 2) == 1 {
